@@ -287,12 +287,19 @@ func (c *celValidator) convertOperator(function string, args []*exprpb.Expr, fie
 		return c.convertInOperator(args, fieldName)
 	}
 
+	// Unary operators: logical not and arithmetic negation.
+	if len(args) == 1 {
+		return c.convertUnaryOperator(function, c.convertASTToGo(args[0], fieldName))
+	}
+
 	if len(args) != 2 {
 		return ""
 	}
 
-	left := c.convertASTToGo(args[0], fieldName)
-	right := c.convertASTToGo(args[1], fieldName)
+	// Operands are rendered as text: keep the grouping of the CEL expression wherever Go's
+	// precedence rules would otherwise regroup the flat text.
+	left := c.convertOperand(args[0], fieldName, operatorPrecedence(function), false)
+	right := c.convertOperand(args[1], fieldName, operatorPrecedence(function), true)
 
 	// Try logical operators first
 	if result := c.convertLogicalOperator(function, left, right); result != "" {
@@ -375,6 +382,61 @@ func (c *celValidator) extractFieldFromFmtSprintf(element string) string {
 	return element[fieldStart : fieldStart+fieldEnd]
 }
 
+// operatorPrecedence returns the Go precedence of the binary operator a CEL function is rendered as
+// (0 when the function is not rendered as a binary operator).
+func operatorPrecedence(function string) int {
+	switch function {
+	case "_||_":
+		return 1
+	case "_&&_":
+		return 2
+	case "_>_", "_>=_", "_<_", "_<=_", "_==_", "_!=_", ternaryOperator:
+		// the ternary operator is rendered as `func() int {...}() > 0`
+		return 3
+	case "_+_", "_-_":
+		return 4
+	case "_*_", "_/_", "_%_":
+		return 5
+	default:
+		return 0
+	}
+}
+
+// convertOperand renders an operand of a binary operator with the given precedence, in parentheses
+// when it is itself an operator expression that binds less tightly (or equally, on the right-hand side
+// and for the non-associative comparisons).
+func (c *celValidator) convertOperand(arg *exprpb.Expr, fieldName string, parent int, rightHand bool) string {
+	operand := c.convertASTToGo(arg, fieldName)
+
+	call := arg.GetCallExpr()
+	if call == nil || call.Target != nil {
+		return operand
+	}
+
+	prec := operatorPrecedence(call.Function)
+	if prec == 0 || parent == 0 || prec > parent {
+		return operand
+	}
+
+	if prec == parent && !rightHand && parent != 3 {
+		return operand
+	}
+
+	return "(" + operand + ")"
+}
+
+// convertUnaryOperator converts the unary operators.
+func (c *celValidator) convertUnaryOperator(function, operand string) string {
+	switch function {
+	case "!_":
+		return fmt.Sprintf("!(%s)", operand)
+	case "-_":
+		return fmt.Sprintf("-(%s)", operand)
+	default:
+		return ""
+	}
+}
+
 // convertLogicalOperator converts logical operators.
 func (c *celValidator) convertLogicalOperator(function, left, right string) string {
 	switch function {
@@ -418,6 +480,8 @@ func (c *celValidator) convertArithmeticOperator(function, left, right string) s
 		return fmt.Sprintf("%s * %s", left, right)
 	case "_/_":
 		return fmt.Sprintf("%s / %s", left, right)
+	case "_%_":
+		return fmt.Sprintf("%s %% %s", left, right)
 	default:
 		return ""
 	}
